@@ -265,6 +265,21 @@ theorem factory_expressions : FactoryFacts where
   rounding := by decide
   pad := by intro s; unfold Gen.Cast.padCount; omega
   privateContext := by decide
+  ambientFree := by decide
+
+/-- **A cast reads nothing but its arguments.**  The statement gives the value of a cast from the value and the declared
+type alone, so it must hold whatever the calling thread's decimal context is (`decimal.localcontext()` with a precision of 3
+or 50, another rounding mode, a narrow exponent range, traps enabled), whatever the locale, the environment, the clock or the
+`sys` settings are.  The extractor lists every read of such state in `DecimalFactory.__call__` / `new_factory` /
+`parse_decimal` (`Gen.Cast.factoryAmbient`: `decimal.getcontext()`, Decimal operators such as `Decimal("10") ** -k`, which
+compute in the *ambient* context, context-sensitive Decimal methods called without `context=`) and in the other parsers and
+`OrsoTypes.parse` (`Gen.Cast.parserAmbient`); both lists are empty, which is why `Cast.parse` / `Cast.factory` take no
+ambient argument and every theorem of this file holds under every ambient state.  A cap `min(self.scale,
+decimal.getcontext().prec)` in place of the constant 28 fails here (and, through `FactoryFacts.ambientFree`, in
+`factory_expressions`). -/
+theorem cast_reads_no_ambient_state :
+    Gen.Cast.factoryAmbient = [] ∧ Gen.Cast.parserAmbient = [] := by
+  constructor <;> decide
 
 /-- **Decimals are exact whenever they fit.**  A finite decimal `(-1)^neg · c · 10^e` with at most
 `s ≤ 28` fractional digits (`-s ≤ e`) whose coefficient, rescaled to exponent `-s`, has at most `p`
